@@ -55,6 +55,13 @@ impl Cfg {
     }
 }
 
+/// number of descriptors of this process that are open on a staging file (also an unlinked one)
+pub fn open_fds() -> usize {
+    std::fs::read_dir("/proc/self/fd").map_or(0, |d| {
+        d.flatten().filter(|e| std::fs::read_link(e.path()).is_ok_and(|t| t.to_string_lossy().contains("/staging/"))).count()
+    })
+}
+
 pub fn err_class(e: &LibError) -> String {
     match e {
         LibError::Io { operation, .. } => format!("Io:{operation:?}"),
@@ -431,6 +438,8 @@ impl<K: HKey> Store<K> {
         };
         json!({
             "casw": crate::shim::cas_writes(),
+            // Async mode hands the staged file's descriptor to a background thread: when it is closed is not a function of the history
+            "fds": if self.cfg.sync { open_fds() } else { 0 },
             "open": self.cas.is_some(), "idx": idx, "sizes": sizes, "iter": iter, "len": len, "xkeys": extra_keys,
             "refc": refc, "refx": refx, "stats": stats, "ixsz": ixsz,
             "get": get, "gsize": if lite { vec![] } else { gsize }, "rdr": if lite { vec![] } else { rdr },
